@@ -8,6 +8,7 @@ import (
 	"context"
 	"errors"
 	"fmt"
+	"os"
 	"sort"
 	"sync"
 	"testing"
@@ -137,7 +138,7 @@ type headers struct {
 	next    *uint64
 	errKind string
 	used    bool
-	group   []*parLookup // lookups of the group in flight, in order of their start
+	group   []*parLookup      // lookups of the group in flight, in order of their start
 	storm   map[string]*SItem // lookups of the storm in flight, by root (fallback, see runStorm)
 }
 
@@ -550,7 +551,12 @@ func TestC18(t *testing.T) {
 					t.Fatalf("a history with a storm cannot have a time-scripted group")
 				}
 			}
+			before := st
 			outs, final, nt = runHistory(t, h, &st)
+			if os.Getenv("C18_STORM_DEBUG") != "" {
+				fmt.Fprintf(os.Stderr, "storm history %v: %d roots, %d in the final map; %d items, %d begun while the job ran\n",
+					h.Tags, len(h.Chain), len(final), st.items-before.items, st.duringJob-before.duringJob)
+			}
 		} else {
 			// one bubble per history: fake time, deterministic order of the instants of a group
 			synctest.Test(t, func(t *testing.T) {
